@@ -388,6 +388,11 @@ class Program:
             c = [v for k, v in self.adts.items() if k.split("::")[-1] == last and k.split("::")[0] == h.split("::")[0]]
             if len(c) == 1:
                 a = c[0]
+        if a is None and h and h[0].isalpha() and not h.startswith(("std::", "core::", "alloc::")):
+            # types of the crate being compiled are printed without the crate name
+            c = [v for k, v in self.adts.items() if k.endswith("::" + h)]
+            if len(c) == 1:
+                a = c[0]
         return a
 
     def variant_names(self, ty):
@@ -852,3 +857,55 @@ def strip_transparent(e):
                 return e
         else:
             return e
+
+
+# ------------------------------------------------------------------ CFG utilities
+
+
+def dominators(fn):
+    """{block: set of dominators} over live blocks (iterative)."""
+    if getattr(fn, "_dom", None) is not None:
+        return fn._dom
+    live = fn.live_blocks()
+    allb = set(live)
+    dom = {b: set(allb) for b in live}
+    dom[0] = {0}
+    changed = True
+    while changed:
+        changed = False
+        for b in live:
+            if b == 0:
+                continue
+            ps = [p for p, _ in fn.preds(b) if p in allb]
+            new = set(allb)
+            for p in ps:
+                new &= dom[p]
+            new = new | {b}
+            if new != dom[b]:
+                dom[b] = new
+                changed = True
+    fn._dom = dom
+    return dom
+
+
+def natural_loops(fn):
+    """List of (header, body-block-set, [back-edge sources])."""
+    dom = dominators(fn)
+    by_head = {}
+    for b in fn.live_blocks():
+        for s, _ in fn.succs(b):
+            if s in dom.get(b, ()):  # back edge b -> s
+                body = {s, b}
+                st = [b]
+                while st:
+                    x = st.pop()
+                    if x == s:
+                        continue
+                    for p, _ in fn.preds(x):
+                        if p not in body and p in dom:
+                            body.add(p)
+                            st.append(p)
+                h = by_head.setdefault(s, [set(), []])
+                h[0] |= body
+                h[1].append(b)
+    return [(h, v[0], v[1]) for h, v in sorted(by_head.items())]
